@@ -4,9 +4,12 @@ from checks import lach_common as lc
 
 
 def run(c):
-    res = lc.run_profile(c, "c08", c.pick(8, 80), "restart")
+    # every DAG of the bounded fork model, replayed kept-running, restarted after every event and after every third event
+    ex = lc.run_exhaustive(c, c.pick(["x211f_5"], ["x211f_6", "x31f_7"]), "restart", orders=4, restarts=True)
+    c.guard("model_dags_with_forks", ex["total"]["dags_with_forks"])
+    res = lc.run_profile(c, "c08", c.pick(10, 80), "restart")
     st = res["stats"]
     c.guard("restarts", st.get("restarts", 0))
     c.guard("blocks", st.get("blocks", 0))
     c.guard("seals", st.get("seals", 0))
-    return lc.finish(c, res, "restart after every accepted event of multi-epoch runs (including right after decisions and seals); every later call validated", extra=None)
+    return lc.finish(c, res, "restart after every accepted event of multi-epoch runs (including right after decisions and seals); every later call validated", extra=dict(exhaustive_part=ex["total"], model_samples=ex["samples"]))
